@@ -69,10 +69,32 @@ impl Prop for C08 {
                 workers: 4,
                 build: Build::Normal,
             },
+            Leg {
+                name: "huge",
+                kind: LegKind::Random {
+                    cases: tier.pick(2, 20),
+                },
+                workers: 16,
+                build: Build::Normal,
+            },
         ]
     }
 
-    fn strategy(_leg: &str, tier: Tier) -> BoxedStrategy<Case> {
+    fn strategy(leg: &str, tier: Tier) -> BoxedStrategy<Case> {
+        if leg == "huge" {
+            // cubic algorithm: orders 150..400
+            return gen::huge_wisize(400)
+                .prop_map(|(mut g, mut family)| {
+                    if !no_negative_circuit(&g) {
+                        for a in &mut g.arcs {
+                            a.2 = a.2.abs();
+                        }
+                        family.push_str("+abs");
+                    }
+                    Case { g, family }
+                })
+                .boxed();
+        }
         (
             gen::weighted_isize_big_rate(tier.pick(12, 40), 150),
             any::<u8>(),
